@@ -50,11 +50,8 @@ pub fn get() -> FunctionDefinitions {
                                 Some(vec.into())
                             }
                             Some(JsonValue::String(str)) => {
-                                let str = if size > str.len() {
-                                    str
-                                } else {
-                                    str[size - 1..].into()
-                                };
+                                let skip = str.chars().count().saturating_sub(size);
+                                let str: String = str.chars().skip(skip).collect();
                                 Some(str.into())
                             }
                             _ => None,
